@@ -45,3 +45,14 @@ Definition run_build (b : batch) (s : N) : list (str * list (str * list hit)) :=
   nonempty_dicts (map (fun f => (f, build b f (scramble s (all_terms b f) ++ all_terms b f)
                                           (fun n => scramble (s + n) (tfs_of b f n)))) (spec_fields b)).
 
+
+(* ---------- the doc-value pass of writeDicts: doc values computed from the postings ---------- *)
+Definition in_postings (n : N) (hs : list hit) : bool := existsb (fun h => h_doc h =? n) hs.
+(* the buffer of document n after all terms were walked, in the order they were walked *)
+Definition terms_with (n : N) (dict : list (str * list hit)) : list str :=
+  map fst (filter (fun e => in_postings n (snd e)) dict).
+Definition dv_from_postings {X} (docs : list (N * X)) (dict : list (str * list hit)) : list (N * list str) :=
+  flat_map (fun nd => match terms_with (fst nd) dict with [] => [] | ts => [(fst nd, ts)] end) docs.
+
+Definition dv_run (b : batch) : list (str * list (N * list str)) :=
+  map (fun f => (f, dv_from_postings (indexed b) (spec_dict b f))) (filter (is_dv_field b) (spec_fields b)).
